@@ -272,6 +272,65 @@ func preliminaryProcessesChecks(processes []*Process, assumedFreeNames []Name, g
 		}
 	}
 
+	// The processes must not use each other in a cycle: each one would wait for the other forever
+	if err := checkProcessesAcyclic(processes); err != nil {
+		return err
+	}
+
+	return nil
+}
+
+// Ensures that the 'uses' relation between the top-level processes has no cycle, where a process
+// uses the processes whose provider names occur free in its body
+func checkProcessesAcyclic(processes []*Process) error {
+	providedBy := make(map[string]int)
+	for i := range processes {
+		for _, provider := range processes[i].Providers {
+			providedBy[provider.Ident] = i
+		}
+	}
+
+	const (
+		unvisited = iota
+		visiting
+		visited
+	)
+	state := make([]int, len(processes))
+
+	var visit func(i int) error
+	visit = func(i int) error {
+		state[i] = visiting
+
+		freeNames := NamesInFirstListOnly(processes[i].Body.FreeNames(), processes[i].Providers)
+		for _, fn := range freeNames {
+			j, isProcessName := providedBy[fn.Ident]
+			if !isProcessName {
+				continue
+			}
+
+			if state[j] == visiting {
+				return fmt.Errorf("(%s) process %s uses the name %s, which (directly or through other processes) depends on %s itself. Processes cannot use each other in a cycle", processes[i].Position.String(), processes[i].OutlineString(), fn.Ident, processes[j].OutlineString())
+			}
+
+			if state[j] == unvisited {
+				if err := visit(j); err != nil {
+					return err
+				}
+			}
+		}
+
+		state[i] = visited
+		return nil
+	}
+
+	for i := range processes {
+		if state[i] == unvisited {
+			if err := visit(i); err != nil {
+				return err
+			}
+		}
+	}
+
 	return nil
 }
 
